@@ -75,16 +75,16 @@ Definition upd_node (n u : node) : node := merge_from (clear_listed n u) u.
 
 (* ---- stores: dicts with insertion order ---- *)
 Definition store := list (id * node).
-Fixpoint sget (i : id) (s : store) : option node :=
+Fixpoint sget {A} (i : id) (s : list (id * A)) : option A :=
   match s with [] => None | (j, n) :: r => if N.eqb i j then Some n else sget i r end.
-Fixpoint sset (i : id) (n : node) (s : store) : store :=
+Fixpoint sset {A} (i : id) (n : A) (s : list (id * A)) : list (id * A) :=
   match s with
   | [] => [(i, n)]
   | (j, m) :: r => if N.eqb i j then (i, n) :: r else (j, m) :: sset i n r
   end.
-Fixpoint sdel (i : id) (s : store) : store :=
+Fixpoint sdel {A} (i : id) (s : list (id * A)) : list (id * A) :=
   match s with [] => [] | (j, m) :: r => if N.eqb i j then sdel i r else (j, m) :: sdel i r end.
-Definition shas (i : id) (s : store) : bool := match sget i s with Some _ => true | None => false end.
+Definition shas {A} (i : id) (s : list (id * A)) : bool := match sget i s with Some _ => true | None => false end.
 
 (* ---- deltas ---- *)
 Record delta := mkDelta {
@@ -349,4 +349,113 @@ Definition model_out (c : case) : option (nat * (store * store * delta)) :=
   match first_bad 0 (init_mgr []) [] c with
   | Some (k, s, rep) => Some (k, (s_data s, rep, s_pub s))
   | None => None
+  end.
+
+(* ---- how the Scheduler drives the manager (scheduler.py / commands.py) ---- *)
+Definition is_delta_op (o : op) : bool :=
+  match o with OpInit _ | OpUpdate _ | OpWfStates | OpPut _ => false | _ => true end.
+Inductive sop :=
+| SDelta (o : op)              (* any delta_* / ghost / edge / prune call (is_delta_op) *)
+| SUpdate (published : bool)   (* Scheduler.update_data_structure: _publish_deltas; update_data_structure; _publish_deltas *)
+| SWfState                     (* Scheduler._update_workflow_state: _publish_deltas; update_workflow_states; _publish_deltas *)
+| SReload                      (* reload_workflow: _update_workflow_state(); initiate_data_model(reloaded=True) *)
+| SStartPut.                   (* run_scheduler: publish_queue.put(publish_deltas) before the main loop *)
+Definition expand1 (o : sop) : list op :=
+  match o with
+  | SDelta o => if is_delta_op o then [o] else []
+  | SUpdate b => [OpPut false; OpUpdate b; OpPut false]
+  | SWfState => [OpPut false; OpWfStates; OpPut false]
+  | SReload => [OpPut false; OpWfStates; OpPut false; OpInit false]
+  | SStartPut => [OpPut true]
+  end.
+Definition expand (p : list sop) : list op := flat_map expand1 p.
+Definition sched_run (p : list sop) : mgr := run (init_mgr []) (expand p).
+(* what has been handed to get_publish_deltas but not yet put on the queue *)
+Definition outstanding (s : mgr) : list delta := if s_pubpend s then [s_pub s] else [].
+
+(* ---- the task pool next to the manager: every pool mutation with the data-store calls
+        that the scheduler makes for it (task_pool.py, task_events_mgr.py, task_job_mgr.py) ---- *)
+Definition pool := list (id * pv).
+
+(* what data[id] will be after the next batch: store_node_fetcher's node merged with the pending delta *)
+Definition eff (s : mgr) (i : id) : option node :=
+  option_map (fun t => upd_node t (pending_delta s i)) (fetch s i).
+
+Definition keys_within (a b : list (N * bool)) : bool :=      (* every label of a is a label of b *)
+  forallb (fun kv => mem N.eqb (fst kv) (okeys b)) a.
+
+Inductive pop :=
+| PAdd (i : id) (p : pv) (h0 : bool)        (* add_to_pool + create_data_store_elements; h0: id is in tasks_to_hold *)
+| PState (i : id) (st : N) (h q r : bool)   (* TaskState.reset(...) then delta_task_state(itask) *)
+| POutputs (i : id) (outs : list (N * bool))(* output completion then delta_task_output(s) *)
+| PPrereqs (i : id) (ps : list prereq)      (* satisfy_me / set prerequisites then delta_task_prerequisite *)
+| PFlows (i : id) (f : list N)              (* merge_flows then delta_task_flow_nums *)
+| PRemove (i : id)                          (* TaskPool.remove *)
+| POther (o : op)                           (* data-store calls about ids that are not in the pool; edges *)
+| PUpdate (ids dd : list id).               (* Scheduler.update_data_structure; ids: what prune_data_store prunes *)
+
+Definition other_ok (pl : pool) (s : mgr) (o : op) : bool :=
+  match o with
+  | OpGhost j _ _ | OpHist j _ | OpState j _ | OpHeld j _ | OpOutputs j _ | OpPrereqs j _ | OpFromProxy j _ =>
+      negb (shas j pl)
+  | OpFlows j _ => negb (shas j pl) && match fetch s j with Some _ => true | None => false end
+  | OpEdge _ _ _ => true
+  | _ => false
+  end.
+
+Definition set_flags (p : pv) (st : N) (h q r : bool) : pv :=
+  mkPv st h q r (p_flows p) (p_outputs p) (p_prereqs p).
+Definition set_outputs (p : pv) (o : list (N * bool)) : pv :=
+  mkPv (p_state p) (p_held p) (p_queued p) (p_runahead p) (p_flows p) o (p_prereqs p).
+Definition set_prereqs (p : pv) (ps : list prereq) : pv :=
+  mkPv (p_state p) (p_held p) (p_queued p) (p_runahead p) (p_flows p) (p_outputs p) ps.
+Definition set_flows (p : pv) (f : list N) : pv :=
+  mkPv (p_state p) (p_held p) (p_queued p) (p_runahead p) f (p_outputs p) (p_prereqs p).
+
+Definition pstep (st : pool * mgr) (o : pop) : option (pool * mgr) :=
+  let (pl, s) := st in
+  match o with
+  | PAdd i p h0 =>
+      if shas i pl then None else
+      match eff s i with
+      | None => Some (sset i p pl, step (step s (OpGhost i h0 (Some p))) (OpState i p))
+      | Some n =>
+          (* generate_ghost_task: the node exists (n-window ghost): delta_from_task_proxy.  The ghost was made
+             from the same task definition: same output labels, same number of prerequisites *)
+          if keys_within (n_outputs n) (p_outputs p) && (nonempty (p_prereqs p) || negb (nonempty (n_prereqs n)))
+          then Some (sset i p pl, step (step s (OpFromProxy i p)) (OpState i p)) else None
+      end
+  | PState i st' h q r =>
+      match sget i pl with
+      | Some p => let p' := set_flags p st' h q r in Some (sset i p' pl, step s (OpState i p'))
+      | None => None
+      end
+  | POutputs i outs =>
+      match sget i pl with
+      | Some p => if keys_within (p_outputs p) outs
+                  then let p' := set_outputs p outs in Some (sset i p' pl, step s (OpOutputs i p')) else None
+      | None => None
+      end
+  | PPrereqs i ps =>
+      match sget i pl with
+      | Some p => if nonempty ps || negb (nonempty (p_prereqs p))
+                  then let p' := set_prereqs p ps in Some (sset i p' pl, step s (OpPrereqs i p')) else None
+      | None => None
+      end
+  | PFlows i f =>
+      match sget i pl with
+      | Some p => Some (sset i (set_flows p f) pl, step s (OpFlows i f))
+      | None => None
+      end
+  | PRemove i => Some (sdel i pl, s)
+  | POther o => if other_ok pl s o then Some (pl, step s o) else None
+  | PUpdate ids dd =>
+      if forallb (fun j => negb (shas j pl)) (ids ++ dd)
+      then Some (pl, run s [OpPut false; OpPrune ids dd; OpUpdate true; OpPut false]) else None
+  end.
+
+Fixpoint prun (st : pool * mgr) (prog : list pop) : option (pool * mgr) :=
+  match prog with
+  | [] => Some st
+  | o :: r => match pstep st o with Some st' => prun st' r | None => None end
   end.
